@@ -1138,7 +1138,7 @@ def do_replay(prop, path):
     c = cases[0]
     profile = "release" if c["env"]["mode"] == "wrapping" else "debug"
     binp, blog = build_harness(profile)
-    if stream in ("twin", "frozen-thread", "allocator", "zst", "multi", "chunk-style", "non-fused", "lying-hint") and prop in SPECIAL:
+    if stream in ("twin", "frozen-thread", "allocator", "zst", "multi", "chunk-style", "non-fused", "lying-hint", "clone-crash") and prop in SPECIAL:
         ONLY[stream] = c
         problems = []
         try:
@@ -1587,6 +1587,80 @@ def lying_hint_stream(prop, tier, seed, bins, out, problems, chks):
     out["random_schedules"] += len(cases)
     out["traces_validated_against_impl"] += ok
     extra_coverage.setdefault(prop, {})["lying_hint_cases"] = ok
+
+
+def clone_crash_stream(prop, tier, seed, bins, out, problems, chks):
+    """the k-th clone of an element panics (cloned() over a slice and over a wrapped iterator of references).  The model
+    has no such crash point, so the traces are judged by the extracted checkers only (no position twice, index
+    fidelity, the source is left alone) and by hang detection: the panic unwinds the caller's operation only"""
+    binp = bins.get("wrapping")
+    if binp is None:
+        return
+    n = 200 if tier == "quick" else 2000
+    r = gen_cases.Rng(seed * 733 + int(prop[1:]))
+    cases = []
+    for i in range(n):
+        c = gen_cases.gen_conc(r, "%s-clonecrash-%d" % (prop, i), dict(next=4, chunk=3, buf=3, loop=2),
+                               kinds=[("slice", 1), ("iter", 1)], adaptors=True)
+        c["env"]["adaptor"] = "cloned"
+        c["env"]["owning"] = False
+        c["clonecrash"] = r.below(2 * c["env"]["len"] + 2)
+        c["sched"] = None
+        cases.append(c)
+    if "clone-crash" in ONLY:
+        cases = [ONLY["clone-crash"]]
+    itraces, dead = run_impl(binp, cases)
+    iblocks, _ = parse_blocks(itraces)
+    rc = []
+    for c in cases:
+        c2 = json.loads(json.dumps(c))
+        il = iblocks.get(c["id"])
+        if il is not None:
+            c2["sched"] = sched_of(il)
+        rc.append(c2)
+    cases_path = os.path.join(BUILD, "tmp", "%s-clonecrash-%d.cases" % (prop, os.getpid()))
+    os.makedirs(os.path.dirname(cases_path), exist_ok=True)
+    open(cases_path, "w").write("".join(gen_cases.fmt_case(dict(c, clonecrash=None)) for c in rc))
+    chk, flags = run_chk(cases_path, itraces, list(chks))
+    os.unlink(cases_path)
+    ok = 0
+    crashed = 0
+    for c in rc:
+        cid = c["id"]
+        il = iblocks.get(cid)
+        rec = dict(case=c, stream="clone-crash")
+        if cid in dead or il is None:
+            rec.update(what="the harness process died on this case: %s" % dead.get(cid, "no output"), checker="process")
+            out["violations"].append(rec)
+            continue
+        if any("panic:user" in l for l in il):
+            crashed += 1
+        failed = [p for p, good in chk.get(cid, {}).items() if not good]
+        fl = flags.get(cid, [])
+        if failed:
+            rec.update(what="clone number %d of an element panics: checker(s) %s return false on the implementation trace"
+                            % (c["clonecrash"], ",".join("chk_C%02d" % int(p) for p in failed)), checker="chk_C%02d" % int(failed[0]), impl_trace=il)
+            out["violations"].append(rec)
+        elif any(f.startswith("hang") or f == "incomplete" for f in fl):
+            rec.update(what="clone number %d of an element panics: a call did not return (hang): %s" % (c["clonecrash"], "; ".join(fl)),
+                       checker="progress", impl_trace=il)
+            out["violations"].append(rec)
+        elif any(f.startswith("unparsed") for f in fl):
+            rec.update(what="clone number %d of an element panics: %s" % (c["clonecrash"], "; ".join(fl)), checker="undocumented-panic", impl_trace=il)
+            out["violations"].append(rec)
+        else:
+            ok += 1
+    out["evaluations"] += len(cases)
+    out["random_schedules"] += len(cases)
+    out["traces_validated_against_impl"] += ok
+    extra_coverage.setdefault(prop, {}).update(clone_crash_cases=ok, clone_crash_cases_in_which_the_clone_panicked=crashed)
+
+
+def special_c18(prop, tier, seed, bins, out, problems):
+    clone_crash_stream(prop, tier, seed, bins, out, problems, (2, 5, 8))
+
+
+SPECIAL["C18"] = special_c18
 
 
 def special_c05(prop, tier, seed, bins, out, problems):
